@@ -19,7 +19,6 @@ import (
 
 	"github.com/ipfs/go-datastore"
 	"github.com/ipfs/go-datastore/query"
-	dssync "github.com/ipfs/go-datastore/sync"
 
 	header "github.com/celestiaorg/go-header"
 	"github.com/celestiaorg/go-header/store"
@@ -56,6 +55,7 @@ type Config struct {
 	NH                   int // registered OnDelete handlers
 	ProbeEvery           bool
 	Ranges               int // random GetRange probes per probe
+	Crash                int // number of write-log prefixes to reopen (0 = none, <0 = all)
 }
 
 // Gen decides the next op given the current head/tail heights (0,0 = empty) and the step index.
@@ -71,12 +71,16 @@ type Result struct {
 	Gapped    bool
 	NonTriv   bool
 	HandlerCalls int
+	CrashTerm string // Coq [ccase] term (when cfg.Crash != 0)
+	LogLen    int
+	CrashPts  int
 }
 
 type runner struct {
 	t     *testing.T
 	cfg   Config
 	ds    datastore.Batching
+	rec   *RecDS
 	s     *store.Store[*vhdr.Header]
 	chain []*vhdr.Header
 	reg   *vhdr.Registry
@@ -229,7 +233,8 @@ func Run(t *testing.T, rng *emit.Rand, cfg Config, maxOps int, gen Gen) Result {
 	var out Result
 	synctest.Test(t, func(t *testing.T) {
 		r := &runner{t: t, cfg: cfg, rng: rng, reg: vhdr.NewRegistry()}
-		r.ds = dssync.MutexWrap(datastore.NewMapDatastore())
+		r.rec = NewRecDS()
+		r.ds = r.rec
 		r.chain = vhdr.Chain("a", 1, cfg.U, time.Now().UnixNano(), 1000, nil)
 		chainTerms := make([]string, len(r.chain))
 		for i, h := range r.chain {
@@ -242,6 +247,7 @@ func Run(t *testing.T, rng *emit.Rand, cfg Config, maxOps int, gen Gen) Result {
 		}
 		var steps []string
 		var descr []string
+		var loglens []string
 		for i := 0; i < maxOps; i++ {
 			var tl, hd uint64
 			if h, err := r.s.Head(ctx); err == nil {
@@ -328,6 +334,7 @@ func Run(t *testing.T, rng *emit.Rand, cfg Config, maxOps int, gen Gen) Result {
 				probe = r.probe()
 			}
 			steps = append(steps, fmt.Sprintf("SStep (%s) %s %s %s", opTerm, outc, emit.List(r.log), probe))
+			loglens = append(loglens, emit.Nat(len(r.rec.Log)))
 			descr = append(descr, opTerm+" => "+outc)
 		}
 		// final step: a real restart with a probe; then the raw datastore is dumped while the
@@ -340,6 +347,7 @@ func Run(t *testing.T, rng *emit.Rand, cfg Config, maxOps int, gen Gen) Result {
 		}
 		synctest.Wait()
 		steps = append(steps, fmt.Sprintf("SStep (IRestart) OOk [] %s", r.probe()))
+		loglens = append(loglens, emit.Nat(len(r.rec.Log)))
 		dump := r.dump()
 		if err := r.s.Stop(ctx); err != nil {
 			t.Fatal("final stop 2:", err)
@@ -347,6 +355,19 @@ func Run(t *testing.T, rng *emit.Rand, cfg Config, maxOps int, gen Gen) Result {
 		out.Term = fmt.Sprintf("SCase %d %s %s %s", cfg.Batch, emit.List(chainTerms), emit.List(steps), dump)
 		out.Descr = map[string]any{"batch": cfg.Batch, "cache": cfg.Cache, "icache": cfg.ICache, "handlers": cfg.NH, "ops": descr}
 		out.NonTriv = out.Ops >= 3
+		if cfg.Crash != 0 {
+			out.LogLen = len(r.rec.Log)
+			crashes := r.explore(cfg.Crash)
+			out.CrashPts = len(crashes)
+			out.CrashTerm = fmt.Sprintf("CCase (%s) %s %s %s", out.Term, emit.List(loglens), r.logTerm(), emit.List(crashes))
+		}
 	})
 	return out
+}
+
+// ProbeOf renders a full probe (without the Some wrapper) of a running store.
+func ProbeOf(s *store.Store[*vhdr.Header], chain []*vhdr.Header, reg *vhdr.Registry, u int) string {
+	r := &runner{s: s, chain: chain, reg: reg, cfg: Config{U: u}, rng: emit.NewRand(1)}
+	p := r.probe()
+	return "(" + p[len("(Some "):]
 }
